@@ -215,3 +215,55 @@ def bits(x):
     if type(x) is Q:
         return ("Q", str(x.v))
     return (type(x).__name__, repr(x))
+
+
+# ---------------------------------------------------------------------------
+# backend-independent readout of stored coordinates (columns)
+
+def stored_columns(v):
+    """(backend, system, [column as list of python values], is_momentum, n) for any vector"""
+    import awkward as ak
+    from vector._methods import Momentum
+    from vector.backends.numpy import VectorNumpy
+    from vector.backends.object import VectorObject
+
+    mom = isinstance(v, Momentum)
+    if isinstance(v, VectorObject):
+        system, stored = obj_stored(v)
+        return "object", system, [[x] for x in stored], mom, 1
+    if isinstance(v, VectorNumpy):
+        system, base = numpy_stored(v)
+        flat = base.reshape(-1)
+        cols = [[x for x in flat[n]] for n in R.field_names(system)]
+        return "numpy", system, cols, mom, flat.shape[0]
+    if isinstance(v, (ak.Array, ak.Record)):
+        fields = ak.fields(v)
+        gen = {}
+        for n in fields:
+            if n in ("x", "y", "rho", "phi", "z", "theta", "eta", "t", "tau"):
+                gen[n] = n
+        for n in fields:
+            g = GENERIC_OF.get(n)
+            if g is not None and g not in gen:
+                gen[g] = n
+        system = fields_system(gen.keys())
+        cols = []
+        for n in R.field_names(system):
+            c = v[gen[n]]
+            if isinstance(v, ak.Record):
+                cols.append([c])
+            else:
+                cols.append(ak.to_list(ak.flatten(c, axis=None)) if c.ndim > 1 else ak.to_list(c))
+        return "awkward", system, cols, mom, len(cols[0])
+    raise TypeError(type(v))
+
+
+def same_bits(a, b):
+    """bit-for-bit equality of two stored values (float64 patterns; ints/Q by value and type family)"""
+    if type(a) is Q or type(b) is Q:
+        return type(a) is Q and type(b) is Q and a.v == b.v
+    if isinstance(a, (float, numpy.floating)) and isinstance(b, (float, numpy.floating)):
+        return struct.pack("<d", float(a)) == struct.pack("<d", float(b)) and numpy.dtype(type(a) if isinstance(a, numpy.floating) else float).itemsize == numpy.dtype(type(b) if isinstance(b, numpy.floating) else float).itemsize
+    if isinstance(a, (int, numpy.integer)) and isinstance(b, (int, numpy.integer)):
+        return int(a) == int(b)
+    return False
